@@ -26,6 +26,7 @@ type TA struct{ Nm }
 
 func (*TA) M1()   {}
 func (*TA) Comp() {}
+func (*TA) Élan() {} // an exported method whose first letter is not ASCII
 
 type TB struct{ Nm }
 
@@ -52,6 +53,7 @@ type TL struct{ Nm }
 
 func (*TL) M1()       {}
 func (*TL) LazyInit() {}
+func (*TL) Élan()     {}
 
 var TypedNames = []string{"TA", "TB", "TC", "TD", "TA2", "TL"}
 
@@ -64,6 +66,9 @@ var Implements = map[string]map[string]bool{
 
 // CompNoResult: types whose Comp() has no result; CompResult: result of Comp() string.
 var CompNoResult = map[string]bool{"TA": true}
+
+// HasElan: types with the method Élan().
+var HasElan = map[string]bool{"TA": true, "TL": true}
 var CompResult = map[string]string{"TB": "A", "TC": "B"}
 
 // Inst describes one provider instance (pure data).
